@@ -193,17 +193,22 @@ def run(rep, tier):
     rd = rep.rule("R13.d", "lddw: second slot has opcode 0 and carries bits 32..64 of the literal", floor=1)
     ai = [p for p in F.fns if p.startswith("assembler::") and any(
         n.get("k") == "call" and (callee_path(n) or "").endswith("HashMap<K, V, S, A>::get") for n in walk(F.fns[p]["thir"]["body"] if F.fns[p].get("thir") else {}))]
-    ok, found = False, ai
-    if len(ai) == 1:
-        hi = None
-        for n in walk(F.fns[ai[0]]["thir"]["body"]):
-            if n.get("k") == "call" and len(n["args"]) == 5 and callee_path(n) in F.fns:
-                a = [strip(x) for x in n["args"]]
-                if all(x.get("k") == "lit" and x.get("v") == 0 for x in a[:4]) and a[4].get("k") == "bin" and a[4]["op"] == "Shr":
-                    r = strip(a[4]["r"])
-                    hi = r.get("v")
-        ok, found = hi == 32, {"second_slot": "insn(0,0,0,0, imm >> %s)" % hi}
-    rep.ob(rd, "second-slot", ok, "second slot of lddw", expected="insn(0, 0, 0, 0, imm >> 32)", found=found)
+    # decided by evaluating the assembler on the wide load (through its own name resolution): two slots, the second all
+    # zero except imm = bits 32..64 of the literal
+    evd = symex.Evaluator(F)
+    evd.unroll = True
+    wide = sorted(nm for nm, e in ref.items() if e[0] == "LoadImm")
+    okd, foundd = bool(wide), "no wide-load mnemonic in the reference table"
+    for nm in wide:
+        res = [x for x in (asmmodel.resolve(F, evd, nm, ("R", "I")) or []) if x["res"] == "Ok"]
+        want2 = {"opc": T.K(8, 0), "dst": T.K(8, 0), "src": T.K(8, 0), "off": T.K(16, 0),
+                 "imm": T.trunc(32, T.shift("ashr", 64, T.V("int1", 64), T.K(64, 32)))}
+        okd = len(res) == 1 and len(res[0]["insns"]) == 2 and asmmodel.same_insn(res[0]["insns"][1], want2)
+        foundd = "two slots, second = (0, 0, 0, 0, imm >> 32)" if okd else {"ok_paths": len(res), "slots": [len(x["insns"]) for x in res],
+                                                                              "second": {k: _sh(v) for k, v in (res[0]["insns"][1].items() if res and len(res[0]["insns"]) > 1 else [])}}
+        if not okd:
+            break
+    rep.ob(rd, "second-slot", okd, "second slot of lddw", expected="insn(0, 0, 0, 0, imm >> 32)", found=foundd)
 
     # R13.g how numeric text becomes a value (sign, radix, combination), register numbers
     rg = rep.rule("R13.g", "numeric literals: '-' negates and '+'/none keeps, `0x` digits are read in radix 16, other digits as decimal i64, value = sign * magnitude (wrapping); register numbers are decimal", floor=6)
